@@ -117,7 +117,8 @@ namespace Givaro {
     inline typename MOD::Element & MOD::div
     (Element &x, const Element &y, const Element &z) const
     {
-        return mulin(inv(x, z), y);
+        Element iz; // x may be the same object as y
+        return mul(x, y, inv(iz, z));
     }
 
     TMPL
